@@ -31,6 +31,9 @@ type PropCfg struct {
 	Paper    []string `json:"paper"`    // paper lemmas / meta-arguments
 	Bounded  []string `json:"bounded"`
 	Notes    string   `json:"notes"`
+	AllowedGlobalWriters map[string][]string `json:"allowed_global_writers"`
+	AllowedNondet        map[string][]string `json:"allowed_nondet"`
+	AllowedGlobals       []string            `json:"allowed_globals"`
 }
 
 type KnownFinding struct {
@@ -239,9 +242,11 @@ func cmdCheck(args []string) int {
 		}
 	}
 	// extra modes
+	mc := &modeCtx{pr: pr, eff: eff, pc: pc, prop: *prop}
 	for _, m := range pc.Modes {
-		items = append(items, runMode(m, pr, eff, pc, *prop)...)
+		items = append(items, runModeCtx(m, mc)...)
 	}
+	obls = append(obls, mc.obls...)
 	// solve
 	cfg := &SolverCfg{Timeout: 10 * time.Second, WorkDir: workDir(), Seed: seed}
 	if *tier == "thorough" {
@@ -306,6 +311,9 @@ func cmdCheck(args []string) int {
 	exit := 0
 	nObl, nDis, nKnown, nViol, nCover := 0, 0, 0, 0, 0
 	replayDir := filepath.Join(root, "replays", *prop)
+	if d := os.Getenv("GOVC_REPLAY_DIR"); d != "" {
+		replayDir = filepath.Join(d, *prop)
+	}
 	var engineErr []string
 	var samples []any
 	for _, it := range items {
@@ -444,8 +452,3 @@ var standingAssumptions = []string{
 	"A4 go/types resolves what the compiler resolves",
 }
 
-func runMode(m string, pr *Prog, eff *Effects, pc *PropCfg, prop string) []*checkItem {
-	switch m {
-	}
-	return []*checkItem{{Name: "mode/" + m, Kind: "mode", Text: "unknown mode", Status: "error"}}
-}
